@@ -141,7 +141,7 @@ pub enum Kept {
     Shm(u64, usize),
 }
 
-fn make_atts(r: &mut Rng, n: usize, nonce: &mut u64) -> (Vec<Att>, Vec<Kept>) {
+pub fn make_atts(r: &mut Rng, n: usize, nonce: &mut u64) -> (Vec<Att>, Vec<Kept>) {
     let mut a = Vec::new();
     let mut k = Vec::new();
     for _ in 0..n {
@@ -168,7 +168,7 @@ fn make_atts(r: &mut Rng, n: usize, nonce: &mut u64) -> (Vec<Att>, Vec<Kept>) {
 }
 
 /// Identity probes of received attachments against kept counterparts; Err lists the problems.
-fn probe(atts: Vec<Att>, kept: &[Kept], nonce: &mut u64, what: &str, problems: &mut Vec<(String, Value)>) {
+pub fn probe(atts: Vec<Att>, kept: &[Kept], nonce: &mut u64, what: &str, problems: &mut Vec<(String, Value)>) {
     if atts.len() != kept.len() {
         problems.push((format!("{}:attachment-count", what), json!({"got": atts.len(), "want": kept.len()})));
         return;
@@ -189,7 +189,7 @@ fn probe(atts: Vec<Att>, kept: &[Kept], nonce: &mut u64, what: &str, problems: &
 }
 
 /// After a failed send and with the program's own handles gone, every counterpart must see the end.
-fn released(kept: &[Kept], what: &str, problems: &mut Vec<(String, Value)>) {
+pub fn released(kept: &[Kept], what: &str, problems: &mut Vec<(String, Value)>) {
     for (i, k) in kept.iter().enumerate() {
         match k {
             Kept::RxOf(rx) => match rx.try_recv() {
